@@ -51,6 +51,9 @@ EXTRA_INSTANCE_CONFIGS = {"x_c50v2": _make(50, 2), "x_c50v5": _make(50, 5), "x_c
 
 class M(Model):
     ENV = "MultiCVRP"
+    # the joint action actually played is judged too: a vehicle's masked-in choice must be carried out unless another
+    # vehicle made a *legal* choice of the same customer (reacted_invalid returns None for that undocumented tie-break)
+    JOINT_REACTION = True
     DETERMINISTIC_CONFIGS = ()
     REWARD_TWINS = REWARD_TWINS  # the C08 driver reads it from the model instance
 
@@ -128,8 +131,12 @@ class M(Model):
             return False  # going to the depot is never an invalid move
         if v < 0 or v > self.N:
             return None  # outside the mask's domain
-        if any(int(a[j]) == v for j in range(a.size) if j != k):
-            return None  # two vehicles chose the same customer: tie-break is undocumented
+        rivals = [j for j in range(a.size) if j != k and int(a[j]) == v]
+        if rivals:
+            lg = np.asarray(self.legal(s)).astype(bool)
+            if any(lg[j, v] for j in rivals):
+                return None  # two vehicles made a *legal* choice of the same customer: the tie-break is undocumented
+            # the other selections of this customer are themselves illegal (masked out): they have no claim on it
         return bool(int(np.asarray(s2.vehicles.positions)[k]) != v)
 
     # ------------------------------------------------------------------ plan bias ('solve' mode)
